@@ -44,9 +44,10 @@ RULE = ("pairs (v, w) from a recursive generator over the supported types (depth
 ASSUMPTIONS = ["floats are small dyadic values q/4 (no NaN/inf: nan != nan, an array containing NaN never equals itself)",
                "arbitrary picklable objects are instances of classes with __eq__ by (class, id) and __hash__ = None; "
                "the md5 of their cloudpickle is modelled as an injective function of (class, id)",
-               "lists given to sorted() have fewer than 64 elements (CPython's binary insertion sort path)",
+               "sets / mappings are sorted by pipefunc.cache._sort_key, a total order: the result does not depend on the "
+               "sorting algorithm (the model still runs CPython's binary insertion sort, lists < 64 elements)",
                "str/bytes compared by code units (UTF-8 for non-ASCII str: order preserving)"]
-TRUSTED = ["Model/PyVal.v (Python ==, <, hash, sorted on the value universe) and Model/ToHashable.v mirror CPython / "
+TRUSTED = ["Model/PyVal.v (Python ==, hash, the canonical sort key _sort_key on the value universe) and Model/ToHashable.v mirror CPython / "
            "pipefunc/cache.py by hand; tie = per-run differential execution on the generated pairs",
            "cloudpickle determinism and md5 collision freedom for the opaque objects (sampled, not modelled)"]
 
@@ -1499,8 +1500,8 @@ def generate(rng, tier, mult):
                 calls.append(_call(p0 + [["T", [["s", nm], v]] for nm, v in sorted(k0, key=lambda kv: kv[0])], []))
             elif op == 1 and k0:    # ... only the last keyword
                 calls.append(_call(p0 + [["T", [["s", k0[-1][0]], k0[-1][1]]]], k0[:-1]))
-            elif op == 2 and p0:    # last positional -> keyword
-                nm = rng.choice([x for x in ["x", "y", "w", "a", "z"] if x not in [q for q, _ in k0]])
+            elif op == 2 and p0 and len(k0) < 5:    # last positional -> keyword
+                nm = rng.choice([x for x in ["x", "y", "w", "a", "z", "v"] if x not in [q for q, _ in k0]])
                 calls.append(_call(p0[:-1], k0 + [[nm, p0[-1]]]))
             elif op == 3 and k0:    # a keyword -> positional
                 calls.append(_call(p0 + [k0[0][1]], k0[1:]))
@@ -1516,13 +1517,12 @@ def generate(rng, tier, mult):
             else:                   # the whole argument list as ONE positional / the kwargs as one dict argument
                 calls.append(_call([["T", p0]] if rng.random() < 0.5 else p0 + [["D", [[["s", nm], v] for nm, v in k0]]], []))
         cases.append({"kind": "memo", "args": calls})
-    # DiskCache file names (_pickle_key of the key) in two interpreters.  Values whose key holds a frozenset with a
-    # seed dependent iteration order are generated only as the fixed, verified witnesses below (whether two given
-    # seeds produce different orders is a coincidence the model cannot predict).
+    # DiskCache file names (_pickle_key of the key) in two interpreters (fixed witnesses with seed dependent frozensets
+    # plus every fourth pair value)
     for v in PICKLE_WITNESSES:
         cases.append({"kind": "pickle", "v": v})
     for j, c in enumerate(list(cases)):
-        if c["kind"] == "pair" and c["fp"] and j % 4 == 0 and not _seed_dep(c["v"]):
+        if c["kind"] == "pair" and c["fp"] and j % 4 == 0:
             cases.append({"kind": "pickle", "v": c["v"]})
     # all keys of this run in ONE second interpreter
     reqs = []
@@ -1629,19 +1629,14 @@ def _is_ok(side):
 
 
 def finding_id(c, impl_obs, kind):
-    """A known id only when BOTH the input class and the observed failure are those of that finding's mechanism:
-         sorted-typeerror-incomparable-keys   : a TypeError where a key was due, on a value with incomparable sort keys
-         masked-array-key-unhashable          : an unhashable key for a value with masked elements
-         pandas-key-loses-index-dtype-order   : DIFFERENT values (one holding a Series/DataFrame) with EQUAL keys
-         sorted-partial-order-frozenset-keys,
-         counter-zero-count-distinct-keys     : EQUAL values with DIFFERENT keys (frozenset sort keys / a zero count)
-         diskcache-pickle-key-hashseed-frozenset : pickle cases with a seed dependent frozenset
-       Anything else - in particular different values sharing a key without pandas - is a new violation."""
+    """The one remaining known finding, matched by its own mechanism only:
+         pandas-key-loses-index-dtype-order : DIFFERENT values (one holding a Series/DataFrame) with EQUAL keys
+       (in memo cases: a stored result returned for another call that involves pandas values).
+       Anything else is a new violation."""
     k = c["kind"]
     if k == "pickle":
-        return "diskcache-pickle-key-hashseed-frozenset" if _seed_dep(c["v"]) else None
+        return None
     if k == "memo":
-        # the only way a memo case fails is a stored result returned for another call
         return "pandas-key-loses-index-dtype-order" if any(_feat_pandas(x) for x in c["args"]) else None
     v, w = c["v"], c["w"]
     if not isinstance(impl_obs, list):
@@ -1649,27 +1644,18 @@ def finding_id(c, impl_obs, kind):
     if k == "rekey":
         if len(impl_obs) != 2 or impl_obs[0] != ["bool", 1]:
             return None
-        collide, split = impl_obs[1] == ["bool", 1], impl_obs[1] == ["bool", 0]
+        collide = impl_obs[1] == ["bool", 1]
     else:
         if len(impl_obs) != 5:
             return None
         sv, sw, eq = impl_obs[0], impl_obs[1], impl_obs[2]
-        for side, val in ((sv, v), (sw, w)):
-            if side == ["err", "TypeError"]:
-                return "sorted-typeerror-incomparable-keys" if _feat_incomparable(val) else None
-            if _is_ok(side) and side[1] == ["bool", 0]:
-                return "masked-array-key-unhashable" if _feat_masked(val) else None
-        if not (_is_ok(sv) and _is_ok(sw)) or impl_obs[3] != ["bool", 1] or impl_obs[4] != ["bool", 1]:
+        if not (_is_ok(sv) and _is_ok(sw)) or sv[1] != ["bool", 1] or sw[1] != ["bool", 1]:
             return None
-        collide, split = eq == ["bool", 1], eq == ["bool", 0]
-    same = _same(v, w)
-    if collide and not same:
-        return "pandas-key-loses-index-dtype-order" if _feat_pandas(v) or _feat_pandas(w) else None
-    if split and same:
-        if _feat_partial(v) or _feat_partial(w):
-            return "sorted-partial-order-frozenset-keys"
-        if _feat_zero_count(v) or _feat_zero_count(w):
-            return "counter-zero-count-distinct-keys"
+        if impl_obs[3] != ["bool", 1] or impl_obs[4] != ["bool", 1]:
+            return None
+        collide = eq == ["bool", 1]
+    if collide and not _same(v, w) and (_feat_pandas(v) or _feat_pandas(w)):
+        return "pandas-key-loses-index-dtype-order"
     return None
 
 
